@@ -72,6 +72,24 @@ static RMat instance(const std::string& kind, int n, bool symmetric)
     else if (kind == "perm")
         for (int i = 0; i < n; i++)
             A((i + 1) % n, i) = Real(1.0);
+    else if (kind == "zero")
+        ;
+    else if (kind == "identity")
+        for (int i = 0; i < n; i++)
+            A(i, i) = Real(1.0);
+    else if (kind == "nilpotent")
+        for (int i = 0; i + 1 < n; i++)
+            A(i, i + 1) = Real(1.0);
+    else if (kind == "skew")
+        for (int i = 0; i < n; i++)
+            for (int j = i + 1; j < n; j++)
+            {
+                A(i, j) = Real(double(((i * 3 + j) % 5) + 1) / 4.0);
+                A(j, i) = -A(i, j);
+            }
+    else if (kind == "tie")  // spectrum with exact ties in every selection key: diag(2,2,-2,-2,1,1)
+        for (int i = 0; i < n; i++)
+            A(i, i) = Real(i < 2 ? 2.0 : (i < 4 ? -2.0 : 1.0));
     else  // "int": a fixed integer matrix
         for (int i = 0; i < n; i++)
             for (int j = 0; j < n; j++)
@@ -552,9 +570,111 @@ static void bfault_case(bool in_solve)
     sym::witness("end");
 }
 
+// C13 on the real kernels: an auditing operator (valid, distinct, non-overlapping length-n buffers; call count) around the
+// library wrapper; degenerate concrete operators drive the breakdown / restart paths of the real Arnoldi / Lanczos code.
+template <typename Base>
+struct AuditOp
+{
+    using Scalar = Real;
+    Base base;
+    mutable long calls = 0;
+    mutable long bad = 0;
+    template <typename M>
+    explicit AuditOp(const M& A) : base(A) {}
+    Eigen::Index rows() const { return base.rows(); }
+    Eigen::Index cols() const { return base.cols(); }
+    void perform_op(const Real* x, Real* y) const
+    {
+        calls++;
+        const Eigen::Index n = base.rows();
+        bool ok = x != nullptr && y != nullptr && (x + n <= y || y + n <= x);
+        if (!ok)
+        {
+            bad++;
+            sym::expect("operator is handed valid, distinct input and output buffers", false, std::string(x == y ? "x_in == y_out" : "null or overlapping buffers") + " at application " + std::to_string(calls));
+            sym::cut("aliased operator buffers");
+        }
+        for (Eigen::Index i = 0; i < n; i++)
+            if (x[i].is_sym() || !std::isfinite(x[i].value()))
+            {
+                sym::expect("operator input is finite", false, "non-finite or symbolic input at application " + std::to_string(calls));
+                sym::cut("non-finite operator input");
+            }
+        base.perform_op(x, y);
+    }
+};
+template <typename Solver, typename OpBase, bool Gen>
+static void audit_case(const RMat& A, int n, int nev, int ncv, const std::string& vkind, Args args)
+{
+    AuditOp<OpBase> op(A);
+    Solver e(op, nev, ncv);
+    RVec v0 = start_vector(vkind, n);
+    std::string outcome = "returned";
+    long nc = -1;
+    try
+    {
+        e.init(v0.data());
+        nc = e.compute(args.rule, args.maxit, Real(args.tol));
+    }
+    catch (const std::invalid_argument& ex)
+    {
+        outcome = std::string("invalid_argument: ") + ex.what();
+    }
+    catch (const std::runtime_error& ex)
+    {
+        outcome = std::string("runtime_error: ") + ex.what();
+    }
+    catch (const std::logic_error& ex)
+    {
+        outcome = std::string("logic_error: ") + ex.what();
+    }
+    sym::note("outcome", outcome);
+    sym::expect("work bound: applications <= 2 + 2*ncv*(maxit+1)", op.calls <= 2 + 2L * ncv * (args.maxit + 1),
+                "applications=" + std::to_string(op.calls) + " bound=" + std::to_string(2 + 2L * ncv * (args.maxit + 1)));
+    sym::expect("no undocumented exception type", outcome.compare(0, 11, "logic_error") != 0, outcome);
+    if (nc >= 0)
+    {
+        sym::expect("info() is Successful or NotConverging", e.info() == CompInfo::Successful || e.info() == CompInfo::NotConverging, "info=" + std::to_string((int) e.info()));
+        sym::expect("num_operations() == real applications", (long) e.num_operations() == op.calls, "counter=" + std::to_string((long) e.num_operations()) + " applied=" + std::to_string(op.calls));
+        Result r = collect<Gen>(e, nc);
+        bool finite = true;
+        for (const Real& x : r.vals)
+            finite = finite && !x.is_sym() && std::isfinite(x.value());
+        for (const Real& x : r.vecs)
+            finite = finite && !x.is_sym() && std::isfinite(x.value());
+        sym::expect("returned eigenvalues and eigenvectors are finite", finite, "NaN/Inf in the results");
+        sym::expect("count consistent", (long) r.vals.size() == (Gen ? 2 : 1) * nc && nc <= nev, "nconv=" + std::to_string(nc));
+    }
+    sym::witness("end");
+}
+
 int main(int argc, char** argv)
 {
     std::vector<sym::Case> cases;
+    {
+        const char* akinds[] = {"diag", "laplace", "rank1", "block", "perm", "int", "zero", "identity", "nilpotent", "skew", "tie"};
+        const char* avk[] = {"generic", "e0", "ones"};
+        const int n = 6;
+        for (const char* k : akinds)
+            for (const char* vk : avk)
+                for (int maxit : {0, 1, 30})
+                {
+                    std::string kind = k, vkind = vk;
+                    bool symm_ok = kind != "perm" && kind != "nilpotent" && kind != "skew";
+                    for (int ncv : {3, 4, 6})
+                    {
+                        std::string tail = std::string("/") + k + "/v-" + vk + "/ncv" + std::to_string(ncv) + "/maxit" + std::to_string(maxit);
+                        if (symm_ok)
+                            cases.push_back({"audit/SymEigsSolver" + tail, [=]() {
+                                                 audit_case<SymEigsSolver<AuditOp<DenseSymMatProd<Real>>>, DenseSymMatProd<Real>, false>(instance(kind, n, true), n, 2, ncv, vkind, Args{SortRule::LargestMagn, maxit, 1e-10});
+                                             }});
+                        if (ncv >= 4)
+                            cases.push_back({"audit/GenEigsSolver" + tail, [=]() {
+                                                 audit_case<GenEigsSolver<AuditOp<DenseGenMatProd<Real>>>, DenseGenMatProd<Real>, true>(instance(kind, n, false), n, 2, ncv, vkind, Args{SortRule::LargestMagn, maxit, 1e-10});
+                                             }});
+                    }
+                }
+    }
     cases.push_back({"fault-B/SymGEigsSolver-RegularInverse/product", []() { bfault_case(false); }});
     cases.push_back({"fault-B/SymGEigsSolver-RegularInverse/solve", []() { bfault_case(true); }});
     const char* kinds[] = {"diag", "laplace", "rank1", "block", "perm", "int"};
